@@ -2374,8 +2374,30 @@ class LazyStackedTensorDict(TensorDictBase):
                         self_idx = (slice(None),) * split_index["mask_dim"] + (i,)
                         self[self_idx][_idx] = _value
         else:
-            for key in self.keys():
-                self.set_at_(key, value, index)
+            # a tensor or a number: like torch on every leaf, it is broadcast against the
+            # indexed part of the leaf.  The members receive their share of the value
+            # (set_at_ unbinds it along the stack dim), so it must have the indexed shape
+            # first: a value with fewer dims (e.g. a 0-dim tensor) cannot be unbound.
+            if not isinstance(value, Tensor):
+                value = torch.as_tensor(value, device=self.device)
+            td0 = self.tensordicts[0] if self.tensordicts else None
+            indexed_bs = None
+            for key in self.keys(True, True):
+                _value = value
+                if td0 is not None:
+                    leaf = td0.get(key, None)
+                    if isinstance(leaf, Tensor):
+                        if indexed_bs is None:
+                            indexed_bs = _getitem_batch_size(self.batch_size, index)
+                        target = torch.Size(
+                            [*indexed_bs, *leaf.shape[td0.batch_dims :]]
+                        )
+                        while _value.ndim > len(target) and _value.shape[0] == 1:
+                            # torch ignores extra leading singleton dims of the value
+                            _value = _value[0]
+                        if _value.shape != target and _value.ndim <= len(target):
+                            _value = _value.expand(target)
+                self.set_at_(key, _value, index)
 
     def __contains__(self, item: IndexType) -> bool:
         if isinstance(item, TensorDictBase):
